@@ -3,6 +3,7 @@ C01 / C04 / C05 / C06 / C13 clauses evaluated on the string the implementation's
 returned, read with the independent SQL reader of Spec/Sql.
 -/
 import PqlModel.Spec.Sql.Parse
+import PqlModel.Spec.Sql.SameMeaning
 import PqlModel.Spec.Misuse
 import PqlModel.Model.Compile
 namespace Pql.CompileOracle
@@ -418,7 +419,9 @@ def clauses (src : Bytes) (params : List (Bytes × Bytes)) (impl : String) : Lis
           | some st, some e =>
             if !params.isEmpty then [] else
             match tr false e, st.body.where_ with
-            | some want, some got => if normS want == normS got then [] else ["c01-where-expression-differs"]
+            | some want, some got =>
+              -- a syntactic difference is a failing input only if the two expressions also evaluate differently
+              if normS want == normS got || sameMeaningWhere got want then [] else ["c01-where-expression-differs"]
             | _, _ => []
           | _, _ => []
         -- C06: reading the output = reading the reference output for the substituted program
@@ -433,7 +436,7 @@ def clauses (src : Bytes) (params : List (Bytes × Bytes)) (impl : String) : Lis
               match compileChunks src params [.tabular t] with
               | .ok cs =>
                 match readSql (renderChunks cs) with
-                | some ref => if statementEq st ref then [] else ["c06-substitution-differs"]
+                | some ref => if statementEq st ref || sameMeaning st ref then [] else ["c06-substitution-differs"]
                 | none => []
               | .error _ => []
             | none => []
